@@ -775,6 +775,18 @@ def shared_mechanisms(run: Run, prop: str, first: int, which: list):
             run.guard(rule, check_rejections_propagate, run, rule, src, get_callgraph(src),
                       ['AstBuilder.parse', 'CompositeBaseToken.get', 'UndefinedToken.get'], 'a formula that does not fit the grammar')
             run.floor(rule, 50)
+        elif name == 'override-lookup':
+            from . import c04
+            run.rule(rule, 'a cell that was given an override reports the override, whatever its value -- None, zero, empty text -- (shared '
+                           'with C04.R2)')
+            borrow(run, rule, c04.r2_eval, get_runtime(src))
+            run.floor(rule, 10)
+        elif name == 'facade':
+            from . import c09
+            run.rule(rule, 'a request on the Parser answers for the workbook as it is now: a path set again is read again, a failed request '
+                           'is not remembered as done (shared with C09.R1)')
+            borrow(run, rule, c09.r1_any, src)
+            run.floor(rule, 30)
         elif name == 'formulas':
             from . import pipeline_eval
             run.rule(rule, 'probe formulas of this property, translated and evaluated end to end by the evaluator (lexer, parser, translators, '
